@@ -15,6 +15,7 @@ import (
 	"github.com/idena-network/idena-go/blockchain/types"
 	"github.com/idena-network/idena-go/blockchain/validation"
 	"github.com/idena-network/idena-go/common"
+	"github.com/idena-network/idena-go/core/appstate"
 	"github.com/idena-network/idena-go/core/state"
 	"github.com/idena-network/idena-go/stats/collector"
 	"pgregory.net/rapid"
@@ -78,6 +79,9 @@ func lockWaitersInRepo(dump string) (n int, stacks []string) {
 }
 
 func TestConcurrent(t *testing.T) {
+	if os.Getenv("C14_DEV_ONLY") == "seq" { // development switch for sensitivity runs of the sequential model
+		t.Skip("C14_DEV_ONLY=seq")
+	}
 	rapid.Check(t, func(t *rapid.T) {
 		completed := false
 		defer func() {
@@ -201,7 +205,7 @@ func TestConcurrent(t *testing.T) {
 		}
 		var chainOps []chainOp
 		for i := rapid.IntRange(3, 12).Draw(t, "chainOps"); i > 0; i-- {
-			c := chainOp{dt: rapid.IntRange(10, 30).Draw(t, "dt"), yields: rapid.IntRange(0, 5).Draw(t, "chainYields"), jump: rapid.IntRange(0, 2).Draw(t, "jump") == 0}
+			c := chainOp{dt: rapid.IntRange(10, 30).Draw(t, "dt"), yields: rapid.IntRange(0, 5).Draw(t, "chainYields"), jump: rapid.IntRange(0, 2).Draw(t, "jump") == 0 && timing == "near"}
 			switch k := rapid.IntRange(0, 11).Draw(t, "chainKind"); {
 			case k <= 6:
 				c.kind = "block"
@@ -301,7 +305,11 @@ func TestConcurrent(t *testing.T) {
 		blocks, builds := 0, 0
 		syncing := false
 		addBlock := func(empty bool, c chainOp) string {
-			advanceClock(w, r, c.jump, 1, c.dt)
+			var view *appstate.AppState
+			if c.jump {
+				view = privateView(r)
+			}
+			advanceClock(w, r, view, c.jump, 1, c.dt)
 			var blk *types.Block
 			if !empty && r.CanPropose() {
 				blk = r.Chain.ProposeBlock([]byte{}).Block
@@ -316,7 +324,7 @@ func TestConcurrent(t *testing.T) {
 				includedAt[tx.Hash()] = blk.Height()
 			}
 			// which transactions of the universe are invalid on this head (the pool may drop those, and their successors)
-			s := r.ReadState()
+			s := privateView(r)
 			for h, why := range released(s, all) {
 				if _, ok := everInvalid[h]; !ok {
 					everInvalid[h] = fmt.Sprintf("%s@%d", why, blk.Height())
@@ -355,7 +363,7 @@ func TestConcurrent(t *testing.T) {
 								stop = true
 							}
 						}()
-						checkOffer(gf, w, r, r.ReadState(), l, true, func() string { return "(list built on the chain goroutine while submitters run)" })
+						checkOffer(gf, w, r, privateView(r), l, true, func() string { return "(list built on the chain goroutine while submitters run)" })
 					}()
 					builds++
 					if stop {
@@ -410,6 +418,11 @@ func TestConcurrent(t *testing.T) {
 
 		// ---- race reports of this run ----
 		for _, rep := range newRaceReports() {
+			if rep.Harness {
+				atomic.AddInt64(&raceKnown, 1)
+				evid.Count("race_by_harness." + rep.Key)
+				continue
+			}
 			key := "c14.race." + rep.Key
 			if kf.Listed("C14", key) {
 				atomic.AddInt64(&raceKnown, 1)
@@ -435,7 +448,7 @@ func TestConcurrent(t *testing.T) {
 		if msg := addBlock(false, chainOp{dt: 15}); msg != "" {
 			t.Fatalf("%s\nchain: %s", msg, strings.Join(chainLog, "; "))
 		}
-		s := r.ReadState()
+		s := privateView(r)
 		ctx := func() string {
 			return fmt.Sprintf("at quiescence: head=%d epoch=%d period=%s goroutines=%d limits=%+v\nchain: %s\npool: %s", r.Head().Height(), s.State.Epoch(), sim.PeriodName(s.State.ValidationPeriod()), nG, *m, strings.Join(chainLog, "; "), txsDesc(w, poolContent(pool)))
 		}
